@@ -449,6 +449,30 @@ func c19Run(run *ev.Run) {
 			}
 		}
 	}
+	// ... and in every combination with other filters' references (same name legally referenced elsewhere, before or after)
+	alpha := []string{"literal", "ref:s1", "ref:default/s1", "ref:other/s1", "ref:s2", "ref:kube-system/s2"}
+	for a := range alpha {
+		for b := range alpha {
+			for c := range alpha {
+				srcs := []string{alpha[a], alpha[b], alpha[c]}
+				foreign := false
+				for _, s := range srcs {
+					if strings.HasPrefix(s, "ref:other/") || strings.HasPrefix(s, "ref:kube-system/") {
+						foreign = true
+					}
+				}
+				_, err := newC19Sys(c19Spec{srcs})
+				total.Transitions++
+				if foreign && (err == nil || !errors.Is(err, k8s.ErrCrossNamespaceSecretRef)) {
+					run.Violation("C19 cross-namespace-reference-accepted", fmt.Sprintf("sources %v: start-up did not refuse the cross-namespace reference (err=%v)", srcs, err), c19Replay{Spec: c19Spec{srcs}})
+				}
+				if !foreign && err != nil {
+					run.Violation("C19 same-namespace-reference-refused", fmt.Sprintf("sources %v: %v", srcs, err), c19Replay{Spec: c19Spec{srcs}})
+				}
+			}
+		}
+	}
+	run.Class("startup|all-triples")
 	run.States, run.Transitions, run.Traces, run.Evals = total.States, total.Transitions, total.Histories, total.Transitions
 	run.Extra["depth"] = depth
 }
